@@ -1183,6 +1183,23 @@ def regex_test(fn: Fn, e: ast.AST) -> RegexTest | None:
                 flags = flags or len(pat.args) > 1 or bool(pat.keywords)
                 pat = pat.args[0] if pat.args else None
             return RegexTest(name.split(".")[1], pat, sub, flags, c)
+        if isinstance(c.func, ast.Attribute) and c.func.attr in ("match", "fullmatch", "search") and isinstance(c.func.value, ast.Subscript) and isinstance(c.func.value.value, ast.Name):
+            # a cache of compiled patterns keyed by the pattern text: every entry is `cache[k] = re.compile(k)`
+            cache = c.func.value.value.id
+            stores = [n for n in ast.walk(fn.fi.node) if isinstance(n, ast.Assign) and any(isinstance(t, ast.Subscript) and isinstance(t.value, ast.Name) and t.value.id == cache for t in n.targets)]
+            others = [n for n in ast.walk(fn.fi.node) if isinstance(n, ast.Call) and isinstance(n.func, ast.Attribute) and isinstance(n.func.value, ast.Name) and n.func.value.id == cache and n.func.attr in ("update", "setdefault", "pop", "popitem", "clear")]
+            inits = [d for d in fn.reaching(cache, fn.ctx_of(c.func.value.value)[1]) if d.kind == "assign"] if parent(fn.ctx_of(c.func.value.value)[1]) is not None else []
+            ok = bool(stores) and not others and all(d.value is not None and isinstance(d.value, ast.Dict) and not d.value.keys for d in inits) and bool(inits)
+            flags = len(c.args) > 1 or bool(c.keywords)
+            for n in stores:
+                t = next(t for t in n.targets if isinstance(t, ast.Subscript) and isinstance(t.value, ast.Name) and t.value.id == cache)
+                v = n.value
+                if not (len(n.targets) == 1 and isinstance(v, ast.Call) and fn.lib_name(v.func) == "re.compile" and v.args and norm(v.args[0]) == norm(t.slice)):
+                    ok = False
+                elif len(v.args) > 1 or v.keywords:
+                    flags = True
+            if ok:
+                return RegexTest(c.func.attr, c.func.value.slice, c.args[0] if c.args else None, flags, c)
         if isinstance(c.func, ast.Attribute) and c.func.attr in ("match", "fullmatch", "search") and isinstance(c.func.value, ast.Call) and fn.lib_name(c.func.value.func) == "re.compile":
             comp = c.func.value
             flags = len(comp.args) > 1 or bool(comp.keywords) or len(c.args) > 1 or bool(c.keywords)
@@ -1244,6 +1261,37 @@ def _first_time_flag(fn: Fn, lit: ast.AST) -> bool:
     return bool(loops_if) and bool(loops_init) and loops_init[0] in loops_if[1:] and loops_if[0] is not loops_init[0]
 
 
+def _first_time_bool(fn: Fn, lit: ast.AST) -> bool:
+    """`flag = False` at the start of every pass of the outer loop; inside the inner loop, *after a successful pattern test*,
+    `if flag: continue` / `if not flag:` and `flag = True`: the guarded block runs for the first inner element that matches."""
+    if not isinstance(lit, ast.Name):
+        return False
+    ctx, orig = fn.ctx_of(lit)
+    if ctx is not fn.fi or parent(orig) is None:
+        return False
+    defs = fn.reaching(orig.id, orig)
+    inits = [d for d in defs if d.kind == "assign" and isinstance(d.value, ast.Constant) and d.value.value is False]
+    sets = [d for d in defs if d.kind == "assign" and isinstance(d.value, ast.Constant) and d.value.value is True]
+    if len(inits) != 1 or not sets or len(inits) + len(sets) != len(defs):
+        return False
+    loops_use = [a for a in ancestors(orig) if isinstance(a, (ast.For, ast.AsyncFor))]
+    loops_init = [a for a in ancestors(inits[0].stmt) if isinstance(a, (ast.For, ast.AsyncFor))]
+    if not loops_use or not loops_init or loops_init[0] not in loops_use[1:] or loops_use[0] is loops_init[0]:
+        return False
+    for d in sets:
+        if loops_use[0] not in list(ancestors(d.stmt)):
+            return False
+        # only a real match may set the flag
+        tested = False
+        for l, p in flatten(fn.conds_all(d.stmt)):
+            rt = regex_test(fn, l)
+            if rt is not None and _success_polarity(l, rt.call) == p:
+                tested = True
+        if not tested:
+            return False
+    return True
+
+
 def matched_pair(fn: Fn, c, modules_param: str, arch_param: str, membership_of: str | None = None, once_per_module: bool = False) -> Matched:
     """Is the contribution made exactly once for every pair (regex filter f of `modules`, module m of `arch.modules`) with
     re.match(f.identifier, m)?  `membership_of`: a literal `f.identifier in <that name>` is tolerated (remove idiom)."""
@@ -1278,6 +1326,8 @@ def matched_pair(fn: Fn, c, modules_param: str, arch_param: str, membership_of: 
             continue  # `if e not in acc: acc.append(e)` - duplicates are not added twice
         if once_per_module and pol and _first_time_flag(fn, lit):
             continue  # added for the first matching pattern of a module only: the same *set* of modules
+        if once_per_module and not pol and _first_time_bool(fn, lit):
+            continue  # the same with a boolean: `if seen: continue; seen = True` after the pattern test, reset per module
         if membership_of is not None and pol and isinstance(lit, ast.Compare) and isinstance(lit.ops[0], ast.In) and _is_identifier_of(lit.left, pv) and dotted(lit.comparators[0]) == membership_of:
             continue
         return Matched(False, f"it additionally depends on `{'' if pol else 'not '}{show(lit)}`")
